@@ -132,7 +132,8 @@ PROPS = {
         "assumptions": ASSUME_COMMON,
     },
     "C15": {
-        "rule": ("each case: random domain (<=1024 points), boolean source forest (fully or quasi reduced, random policies), index-set "
+        "rule": ("one case in 16: a product set over 11 variables of size 8 with 2.9e9 - 8.6e9 members (more than 2^31; ranks computed arithmetically): stored root cardinality, getElement at 0, n-1, around 2^31 and 2^32 and at random indexes, the index function at the returned member, out-of-range indexes beyond 32 bits.  Other cases: "
+                 "each case: random domain (<=1024 points), boolean source forest (fully or quasi reduced, random policies), index-set "
                  "forest with random policies, 1-5 sets incl. empty, full, singleton and random; CONVERT_TO_INDEX_SET result evaluated at "
                  "every point against rank-in-lexicographic-order / +infinity; getElement(i) for all (up to 60) valid indexes must "
                  "return the i-th member and must return false for -1, -2, n, n+1, n+7, 2n+3, +-10^6, 2^31-1; stored cardinality of "
@@ -142,7 +143,7 @@ PROPS = {
             "quick": [P("main", "asan", 1500)],
             "thorough": [P("main", "asan", 40000)],
         },
-        "require_counters": ["conversions", "lookups_in_range", "lookups_out_of_range", "empty_sets", "full_sets", "audit_index_cardinalities"],
+        "require_counters": ["huge_cases", "lookups_beyond_2^31", "conversions", "lookups_in_range", "lookups_out_of_range", "empty_sets", "full_sets", "audit_index_cardinalities"],
         "assumptions": ASSUME_COMMON,
     },
     "C09": {
@@ -345,13 +346,18 @@ PROPS = {
                  "random.  After every destruction: edges of the destroyed forest report getForest()==nullptr and using one in "
                  "COPY raises an error; getForestWithID forgets the forest; all surviving edges re-evaluated everywhere; surviving "
                  "forests pass M1-M3; later operations still equal the model; forest identifiers within one initialisation are "
-                 "pairwise distinct; ASan watches every teardown order.  Iterators are destroyed before their forest.  "
+                 "pairwise distinct; every operation object the harness saw built for a destroyed forest must be gone from the "
+                 "library's operation registry (getOpWithID) right after the destruction; half of the orphaned edges are attached "
+                 "to a surviving forest, must then carry node 0 (no alias of a node of that forest), the forest is audited and the "
+                 "edge detached again; ASan watches every teardown order; a second pass runs the same cases on the uninstrumented "
+                 "build, where freed forests' addresses are reused by later forests (ASan's quarantine prevents that).  "
+                 "Iterators are destroyed before their forest.  "
                  "non-trivial = every case; distinct = hash of the action trace"),
         "passes": {
-            "quick": [P("main", "asan", 800)],
-            "thorough": [P("main", "asan", 15000)],
+            "quick": [P("main", "asan", 800), P("reuse", "opt", 800)],
+            "thorough": [P("main", "asan", 15000), P("reuse", "opt", 15000)],
         },
-        "require_counters": ["initializations", "cleanups", "forests_destroyed", "domains_destroyed", "orphan_edges_checked", "orphan_edge_uses_rejected",
+        "require_counters": ["initializations", "cleanups", "forests_destroyed", "domains_destroyed", "orphan_edges_checked", "orphan_edge_uses_rejected", "operations_checked_gone", "orphans_reattached",
                              "operations_spanning_two_forests", "edges_destroyed_after_cleanup", "iterators_created", "cross_domain_rejections"],
         "assumptions": ASSUME_COMMON + ["an iterator is destroyed before the forest it iterates over"],
     },
